@@ -1,5 +1,5 @@
 ------------------------------- MODULE Chain -------------------------------
-(* Extension "chain" (host C09), Layer P for package rest/chain (a modified alice):
+(* Extension "restchain" (host C09), Layer P for package rest/chain (a modified alice):
 
      New(ms...)            a chain holding ms (a private copy of the argument)
      c.Append(ms...)       a NEW chain  c ++ ms ; c itself is unchanged
@@ -72,9 +72,10 @@ CodeOf(r) == IF r.stop < Len(r.pipe) THEN 418 ELSE 200
 
 \* ---- properties ---------------------------------------------------------------------
 \* (action property) no operation changes an existing chain or handler
-Immutable ==
-  [][ /\ \A i \in DOMAIN chains : i \in DOMAIN chains' /\ chains'[i] = chains[i]
-      /\ \A i \in DOMAIN hands  : i \in DOMAIN hands'  /\ hands'[i] = hands[i] ]_cvars
+ImmutableStep ==
+  /\ \A i \in DOMAIN chains : i \in DOMAIN chains' /\ chains'[i] = chains[i]
+  /\ \A i \in DOMAIN hands  : i \in DOMAIN hands'  /\ hands'[i] = hands[i]
+Immutable == [][ImmutableStep]_cvars
 \* a request in flight walks the pipeline its handler had when it was built
 WalksOwnHandler == \A q \in Live : reqs[q].pipe = PipeOf(reqs[q].h)
 =============================================================================
